@@ -25,6 +25,7 @@ import (
 	"fmt"
 	"strconv"
 	"strings"
+	"unicode"
 	"unicode/utf16"
 )
 
@@ -177,7 +178,12 @@ func Transform(jsonData []byte) (result []byte, e error) {
 							setError("Missing surrogate")
 						} else {
 							// Output the UTF-32 code point as UTF-8
-							rawString.WriteRune(utf16.DecodeRune(firstUTF16, getUEscape()))
+							r := utf16.DecodeRune(firstUTF16, getUEscape())
+							if r == unicode.ReplacementChar {
+								// not a high surrogate followed by a low surrogate
+								setError("Invalid surrogate pair")
+							}
+							rawString.WriteRune(r)
 						}
 					} else {
 						// Single UTF-16 code identical to UTF-32.  Output as UTF-8
